@@ -23,6 +23,8 @@ import (
 	"time"
 
 	enc "github.com/named-data/ndnd/std/encoding"
+	basic "github.com/named-data/ndnd/std/engine/basic"
+	"github.com/named-data/ndnd/std/engine/dummy"
 	"github.com/named-data/ndnd/std/ndn"
 	rdr "github.com/named-data/ndnd/std/ndn/rdr_2024"
 	spec "github.com/named-data/ndnd/std/ndn/spec_2022"
@@ -119,6 +121,8 @@ type network struct {
 	inflight int // Data packets scheduled for delivery
 	prod     *hEngine
 	cons     *hEngine
+	realFace *dummy.DummyFace // producer side on the REAL basic.Engine (histories with eng=basic)
+	sibCalls int              // calls of the harness's sibling handlers on the producer engine
 }
 
 const defaultDelayMs = 10
@@ -312,8 +316,34 @@ func (n *network) relayInterest(wire []byte) {
 	}
 	n.events = append(n.events, n.tag("i", obj, key))
 	h := n.prod.lookup(name)
+	real := n.realFace
 	n.mu.Unlock()
-	if act.kind == 'i' || h == nil {
+	if act.kind == 'i' {
+		return
+	}
+	send := func(data []byte) {
+		if act.kind == 'x' {
+			return
+		}
+		n.mu.Lock()
+		n.inflight++
+		n.uniqueAfter(time.Duration(act.delay)*time.Millisecond, func() { n.deliverData(data) })
+		n.mu.Unlock()
+	}
+	if real != nil {
+		// the Interest wire goes through the real engine: onPacket -> onInterest (handler lookup) ->
+		// Client.onInterest -> store.Get -> Reply -> face.Send; whatever the face sent comes back
+		real.FeedPacket(wire)
+		for {
+			pkt, err := real.Consume()
+			if err != nil {
+				break
+			}
+			send(append([]byte(nil), pkt...))
+		}
+		return
+	}
+	if h == nil {
 		return
 	}
 	replied := false
@@ -327,14 +357,7 @@ func (n *network) relayInterest(wire []byte) {
 				return fmt.Errorf("already replied")
 			}
 			replied = true
-			if act.kind == 'x' {
-				return nil
-			}
-			data := w.Join()
-			n.mu.Lock()
-			n.inflight++
-			n.uniqueAfter(time.Duration(act.delay)*time.Millisecond, func() { n.deliverData(data) })
-			n.mu.Unlock()
+			send(w.Join())
 			return nil
 		},
 	})
@@ -381,6 +404,8 @@ type hist struct {
 	serve            string
 	net              *network
 	prodEng, consEng *hEngine
+	realEng          *basic.Engine
+	srv              *object.Client // the client that answers Interests
 	prodMem          *object.Client
 	prodBolt         *object.Client
 	cons             *object.Client
@@ -392,7 +417,7 @@ var progress atomic.Int64 // watchdog heartbeat
 
 func tmpRoot() string { return common.Env("VERIF_TMP", "/var/tmp") }
 
-func newHist(serve string) (*hist, error) {
+func newHist(serve, eng string, sibs []enc.Name) (*hist, error) {
 	dir, err := os.MkdirTemp(tmpRoot(), "c15-")
 	if err != nil {
 		return nil, err
@@ -409,15 +434,40 @@ func newHist(serve string) (*hist, error) {
 	h.prodEng = &hEngine{net: h.net, running: true, timer: hTimer{&nonceCtr}}
 	h.consEng = &hEngine{net: h.net, running: true, timer: hTimer{&nonceCtr}}
 	h.net.prod, h.net.cons = h.prodEng, h.consEng
-	// Produce only needs Spec() and the store: one producer client per store; the serving one is started
+	// Produce only needs Spec() and the store: one producer client per store (on the harness engine, whose
+	// Spec() carries the rm= hook); the client that answers Interests shares the store of the serving kind
 	h.prodMem = object.NewClient(h.prodEng, h.recMem)
 	h.prodBolt = object.NewClient(h.prodEng, h.recBolt)
-	srv := h.prodMem
+	var srvStore ndn.Store = h.recMem
+	h.srv = h.prodMem
 	if serve == "bolt" {
-		srv = h.prodBolt
+		srvStore, h.srv = h.recBolt, h.prodBolt
 	}
-	if err := srv.Start(); err != nil {
+	var prodEngine ndn.Engine = h.prodEng
+	if eng == "basic" {
+		// producer side on the real engine: handler lookup, reply path and LpPacket handling are the code's
+		h.net.realFace = dummy.NewDummyFace()
+		timer := basic.NewTimer()
+		passAll := func(enc.Name, enc.Wire, ndn.Signature) bool { return true }
+		h.realEng = basic.NewEngine(h.net.realFace, timer, sec.NewSha256IntSigner(timer), passAll)
+		if err := h.realEng.Start(); err != nil {
+			return nil, err
+		}
+		prodEngine = h.realEng
+		h.srv = object.NewClient(h.realEng, srvStore)
+	}
+	if err := h.srv.Start(); err != nil {
 		return nil, err
+	}
+	// other handlers of the producer application under prefixes that cover none of the packets
+	for _, sb := range sibs {
+		if err := prodEngine.AttachHandler(sb, func(ndn.InterestHandlerArgs) {
+			h.net.mu.Lock()
+			h.net.sibCalls++
+			h.net.mu.Unlock()
+		}); err != nil {
+			return nil, err
+		}
 	}
 	h.cons = object.NewClient(h.consEng, object.NewMemoryStore())
 	if err := h.cons.Start(); err != nil {
@@ -431,10 +481,9 @@ func (h *hist) close() {
 		return
 	}
 	h.cons.Stop()
-	if h.serve == "bolt" {
-		h.prodBolt.Stop()
-	} else {
-		h.prodMem.Stop()
+	h.srv.Stop()
+	if h.realEng != nil {
+		h.realEng.Stop()
 	}
 	h.bolt.Close()
 	os.RemoveAll(h.dir)
@@ -570,7 +619,13 @@ func exec(op string) string {
 		if serve != "bolt" {
 			serve = "mem"
 		}
-		h, err := newHist(serve)
+		var sibs []enc.Name
+		if a["sib"] != "" && a["sib"] != "-" {
+			for _, x := range strings.Split(a["sib"], ",") {
+				sibs = append(sibs, common.ParseNameText(x))
+			}
+		}
+		h, err := newHist(serve, a["eng"], sibs)
 		if err != nil {
 			return "harness-error " + err.Error()
 		}
@@ -862,7 +917,15 @@ func (h *hist) consume(names []enc.Name, scripts []string) string {
 		out += key + cb
 	}
 	mu.Unlock()
-	return out + fmt.Sprintf(" fin=%d", fin)
+	out += fmt.Sprintf(" fin=%d", fin)
+	n.mu.Lock()
+	if n.sibCalls > 0 {
+		// a sibling handler must never see an Interest for a packet of the objects
+		out += fmt.Sprintf(" sib=%d", n.sibCalls)
+		n.sibCalls = 0
+	}
+	n.mu.Unlock()
+	return out
 }
 
 // ------------------------------------------------------------------ entry point
